@@ -621,6 +621,73 @@ def _not_identity(e: ast.AST) -> ast.AST | None:
     return e
 
 
+def pssh_without_key_ids(rep: Report, rid: str) -> None:
+    """a pssh box that lists no key ids (the version 0 form) is only right for a key set of at most one key - with
+    two or more keys the box has to name them (version 1).  For every construction of a ContentProtectionSpecificBox
+    in the DRM package whose `key_ids` is the empty list on a path, the comparisons of that path bound
+    `len(<key set>)` by 1."""
+    from ..flow import Disjunctive, Flow
+    from ..pathcond import PathCond, atoms_of, entails as pc_entails, f_not, sym_values
+    n = 0
+    for rel in rep.repo.py_files('dashlive/drm'):
+        if 'ContentProtectionSpecificBox' not in rep.repo.source(rel):
+            continue
+        for cls_, fn in rep.repo.expanded_functions(rel):
+            def boxes(st):
+                return [c for c in ast.walk(st) if isinstance(c, ast.Call) and (call_name(c) or '').endswith('ContentProtectionSpecificBox')
+                        and any(k.arg == 'key_ids' for k in c.keywords)]
+            if not boxes(fn):
+                continue
+            upd, resolve = sym_values(max_len=300)
+            at: list[tuple[ast.stmt, tuple]] = []
+
+            def on_stmt(st, states, at=at):
+                if isinstance(st, (ast.If, ast.While, ast.For, ast.Try, ast.With)):
+                    return
+                if boxes(st):
+                    at.extend((st, x) for x in states)
+            Flow(Disjunctive(PathCond(upd=upd, twin=resolve), cap=256), on_stmt=on_stmt).run(fn, [PathCond.initial()])
+            construct = f'{rel}::{(cls_.name + ".") if cls_ else ""}{fn.name}'
+            for st, state in at:
+                for c in boxes(st):
+                    kid = resolve(state, next(k.value for k in c.keywords if k.arg == 'key_ids'))
+                    if not (isinstance(kid, (ast.List, ast.Tuple)) and not kid.elts):
+                        continue
+                    n += 1
+                    pc = state[0]
+                    ub = None
+                    for t_ in atoms_of(pc):
+                        try:
+                            e_ = ast.parse(t_, mode='eval').body
+                        except SyntaxError:
+                            continue
+                        if not (isinstance(e_, ast.Compare) and len(e_.ops) == 1 and isinstance(e_.left, ast.Call)
+                                and norm(e_.left.func) == 'len' and isinstance(e_.comparators[0], ast.Constant)
+                                and isinstance(e_.comparators[0].value, int)):
+                            continue
+                        k_ = e_.comparators[0].value
+                        op = type(e_.ops[0])
+                        if pc_entails(pc, f_not(('atom', t_))) is True:
+                            op = {ast.Lt: ast.GtE, ast.LtE: ast.Gt, ast.Gt: ast.LtE, ast.GtE: ast.Lt, ast.Eq: ast.NotEq,
+                                  ast.NotEq: ast.Eq}.get(op)
+                        elif pc_entails(pc, ('atom', t_)) is not True:
+                            continue
+                        b_ = {ast.Lt: k_ - 1, ast.LtE: k_, ast.Eq: k_}.get(op)
+                        if b_ is not None:
+                            ub = b_ if ub is None else min(ub, b_)
+                    key = 'a pssh without key ids only for at most one key'
+                    if ub is not None and ub <= 1:
+                        rep.ok(rid, construct, key, f'len(keys) <= {ub} on the path')
+                    else:
+                        rep.fail(rid, construct, key,
+                                 f'`{norm(c)[:60]}` is built with no key ids on a path that allows '
+                                 + (f'up to {ub} keys' if ub is not None else 'any number of keys') +
+                                 ': a track with two key ids gets a pssh that names neither (the version 1 box with the KID list '
+                                 'is due from two keys on)', st)
+    if n == 0:
+        rep.ok(rid, 'dashlive/drm', 'a pssh without key ids only for at most one key', 'no pssh is built without key ids')
+
+
 def pssh_key_ids(rep: Report, rid: str) -> None:
     """every pssh box built by a DRM system lists the key ids as they are (the bytes the tenc box and the
     representation carry): the `key_ids=` argument is an empty list or a list of identity conversions of the
@@ -733,3 +800,4 @@ def analyse(rep: Report) -> None:
     r10_5(rep)
     r10_6(rep)
     pssh_key_ids(rep, 'R10.7')
+    pssh_without_key_ids(rep, 'R10.7')
